@@ -31,7 +31,9 @@ from concurrent.futures import ProcessPoolExecutor
 
 import vlib
 
-ALPHABET = [97, 32, 10, 13, 233, 8364, 128512, 12, 8232]   # a, space, LF, CR, e-acute, euro, U+1F600, FF, U+2028
+# a, space, LF, CR, e-acute (2 bytes), euro (3 bytes, lead 0xE2), U+1F600 (4 bytes), FF, U+2028, U+FEFF (3 bytes, lead 0xEF:
+# the last 3-byte lead byte, next to the 4-byte leads 0xF0..; seeded change C10-mut4 misreads exactly that lead byte)
+ALPHABET = [97, 32, 10, 13, 233, 8364, 128512, 12, 8232, 0xFEFF]
 THEOREMS = ["C10_line", "C10_line_inside_crlf", "C10_boundary_cases", "C10_roundtrip", "C10_clamp", "C10_column",
             "C10_line_exists", "C10_monotone", "C10_impl_correct", "C10_impl_folding_range", "C10_impl_wrappers", "C10_impl_every_offset",
             "C10_model_is_source", "C10_source_correct",
@@ -39,6 +41,7 @@ THEOREMS = ["C10_line", "C10_line_inside_crlf", "C10_boundary_cases", "C10_round
 TRUSTED = [
     "Coq 8.16.1 kernel (coqc; vm_compute not needed by these proofs); no axioms (Print Assumptions: closed under the global context)",
     "statement of the specification pos_of/off_of and of count_terms/last_line/is_line in coq/model/LineIndex.v (read against the LSP specification)",
+    "translator tools/translate/t_lineindex.py (Rust subset reader + operation table): renders the current line_index.rs and to_proto/from_proto position/range/folding_range as coq/gen/GenLineIndex.v; C10_model_is_source proves the rendering equal to the hand model for all inputs",
     "hand-written model of line_index.rs, to_proto::{position,range,folding_range} (+ the wrappers inlay_hint/location/diagnostic/document_link/document_symbol as aliases), from_proto::{position,range} in coq/model/LineIndex.v, tied to the code by the correspondence run of this check",
     "modelled Rust std contracts: UTF-8 encoding of a String, str::is_char_boundary, str slicing panics, chars(), char::len_utf8/len_utf16, slice::partition_point on a partitioned slice (precondition proved), u32/usize conversions, debug-build overflow checks; text-size TextSize::of/try_from and the TextRange::new assertion",
     "Coq extraction (ExtrOcamlBasic only) and the OCaml driver coq/extract/lines_driver.ml",
@@ -501,6 +504,18 @@ def run(ctx):
             fails.append({"kind": "coqchk", "file": "props/C10.vo", "error": out[-1500:]})
     cone = coq_cone("props/C10.v")
     ctx.cov["coq_cone"] = sorted(cone)
+    # what the translator T-lines read on this run, and what it produced
+    src = {}
+    for rel in ("crates/ide/src/line_index.rs", "crates/lsp/src/to_proto.rs", "crates/lsp/src/from_proto.rs"):
+        try:
+            src[rel] = vlib.sha(open(os.path.join(vlib.REPO, rel), encoding="utf-8").read())[:16]
+        except OSError as ex:
+            src[rel] = "unreadable: %s" % ex
+    try:
+        src["coq/gen/GenLineIndex.v"] = vlib.sha(open(os.path.join(vlib.COQ, "gen", "GenLineIndex.v")).read())[:16]
+    except OSError as ex:
+        src["coq/gen/GenLineIndex.v"] = "missing: %s" % ex
+    ctx.cov["translated_source_sha256"] = src
     fails = [f for f in fails if not (f.get("kind") == "forbidden-declaration"
                                       and f.get("where", "").split(":")[0] not in cone)]
     exe = vlib.build_model("lines")
@@ -597,7 +612,7 @@ def run(ctx):
     ctx.cov["evaluations"] = stats.get("queries", 0)
     ctx.cov["texts"] = stats.get("texts", 0)
     ctx.cov["distinct_nontrivial"] = sum(1 for t in distinct if nontrivial(t))
-    ctx.cov["rule"] = ("texts: every string of length <= %d over {a, space, LF, CR, U+E9, U+20AC, U+1F600, FF, U+2028} "
+    ctx.cov["rule"] = ("texts: every string of length <= %d over {a, space, LF, CR, U+E9, U+20AC, U+1F600, FF, U+2028, U+FEFF} "
                        "(exhaustive), %d seeded random mixed texts of 8..700 code points (ASCII, 2/3/4-byte characters, "
                        "LF/CR/CRLF, VT/FF/NEL/U+2028/U+2029/BOM/NUL), and the regression inputs of defect D7; queries per text: "
                        "to_proto::position at every byte offset 0..len+1 (boundary or not), from_proto::position at every "
